@@ -525,8 +525,8 @@ func (h *helperVisitor) sortArgs(Args map[string]Expression) []Node {
 	if len(Args) != 0 {
 		// sort the arguments to visit them in the order they appear
 		args := make([]Node, 0, len(Args))
-		for _, arg := range Args {
-			args = append(args, arg)
+		for _, name := range SortedArgNames(Args) {
+			args = append(args, Args[name])
 		}
 		return args
 	}
